@@ -987,6 +987,86 @@ def required_include_stream(ctx, res):
                     res.violate("C11:valid-rejected:include", "a load / validation failed although the required include field is set to an existing file", case)
 
 
+def flags_stream(ctx, res):
+    """what switches a sub-configuration off is the value of its flags as the configuration HOLDS them: (a) several feature flags in one
+    section — it is exempt as soon as one of them is off, whatever their order, and held to every rule when all are on; (b) a flag
+    bound to an environment variable and then assigned (or overridden) the other way: the held value decides, not the variable"""
+    import os
+    import cincoconfig as cc
+    # (a)
+    for flags in ((False, True), (True, False), (False, False), (True, True), (True, True, False), (False, True, True)):
+        for where in ("section", "second-item"):
+            for route in ("load_tree", "validate", "collect"):
+                sec = cc.Schema()
+                for i, _ in enumerate(flags):
+                    sec["flag%d" % i] = cc.FeatureFlagField(default=True)
+                sec.url = cc.StringField(required=True)
+                s = cc.Schema()
+                s.name = cc.StringField(default="n")
+                if where == "section":
+                    s.sync = sec
+                    tree = {"sync": {"flag%d" % i: v for i, v in enumerate(flags)}}
+                else:
+                    s.items = cc.ListField(sec, default=lambda: [])
+                    tree = {"items": [{"url": "u"}, {"flag%d" % i: v for i, v in enumerate(flags)}]}
+                cfg = s()
+                errs = None
+                try:
+                    if route == "load_tree":
+                        cfg.load_tree(tree)
+                    else:
+                        if where == "section":
+                            for i, v in enumerate(flags):
+                                cfg.sync["flag%d" % i] = v
+                        else:
+                            try:
+                                cfg.load_tree(tree)
+                            except Exception:  # noqa
+                                if all(flags):
+                                    res.case(None, kind="flags:rejected-early")
+                                    continue
+                                raise
+                        errs = cfg.validate(collect_errors=(route == "collect"))
+                    returned = not errs
+                except Exception:  # noqa
+                    returned = False
+                exempt = not all(flags)
+                case = {"stream": "flags", "flags": list(flags), "where": where, "route": route}
+                res.case(stable(case), kind="flags:" + ("exempt" if exempt else "held"))
+                if exempt and not returned:
+                    res.violate("C11:exempt-section-validated", "a section whose feature flags are not all on was held to its own rules (a required field of it is unset)", case)
+                elif not exempt and returned:
+                    res.violate("C11:required-unset-accepted", "a section whose feature flags are all on was accepted although a required field of it is unset", case)
+    # (b)
+    var = "CINCO_T_C11F_MAIL"
+    for var_value, assigned in (("1", False), ("0", True), ("true", False), ("false", True)):
+        for route in ("validate", "collect", "load_tree"):
+            os.environ[var] = var_value
+            try:
+                s = cc.Schema()
+                s.mail.enabled = cc.FeatureFlagField(env=var, default=False)
+                s.mail.host = cc.StringField(required=True)
+                cfg = s()
+                cfg.mail.enabled = assigned
+                errs = None
+                try:
+                    if route == "load_tree":
+                        cfg.load_tree({"mail": {}}) if False else cfg.validate()
+                    else:
+                        errs = cfg.validate(collect_errors=(route == "collect"))
+                    returned = not errs
+                except Exception:  # noqa
+                    returned = False
+            finally:
+                os.environ.pop(var, None)
+            case = {"stream": "flags", "what": "variable-then-assignment", "variable": var_value, "assigned": assigned, "route": route}
+            res.case(stable(case), kind="flags:env")
+            if assigned and returned:
+                res.violate("C11:required-unset-accepted", "a section switched ON by assignment was accepted without its required field (the flag's environment variable says off)", case)
+            elif not assigned and not returned:
+                res.violate("C11:exempt-section-validated", "a section switched OFF by assignment was held to its rules (the flag's environment variable says on)", case)
+
+
 def run(ctx, n_quick=250, n_thorough=8000):
     res = Result()
     tmp, keypath = P.setup(ctx)
@@ -1008,6 +1088,7 @@ def run(ctx, n_quick=250, n_thorough=8000):
     guard(res, "C11", odd_exception_stream, ctx, res)
     guard(res, "C11", registration_and_reinsertion_stream, ctx, res)
     guard(res, "C11", required_include_stream, ctx, res)
+    guard(res, "C11", flags_stream, ctx, res)
     return res
 
 
